@@ -604,10 +604,10 @@ Proof. exact rewrite_sections_all. Qed.
 Print Assumptions C04_rewrite_sections_all.
 
 (* ---- the model's literals are the constants of the Go source (Proofs/ConstTie.v, Gen/Consts.v regenerated from the
-   repository on every run by tools/genconsts): every SSA/ASS keyword, separator, tag and name the model spells out equals the
-   package-level constant, struct tag or bidirectional-map entry of the source, or occurs among the string literals of
-   the function the model transcribes.  A closed boolean computed by the kernel. ---- *)
-From Astisub Require Proofs.ConstTie.
-Theorem C04_constants_from_source : ConstTie.all ConstTie.SsaTie.ties = true.
-Proof. exact ConstTie.SsaTie.consts_from_source. Qed.
+   repository on every run by tools/genconsts): the SSA/ASS separators, keywords and names the model spells out equal the
+   NAMED package-level constants, struct tags and bidirectional-map entries of the source (literals inside function bodies and
+   regexp patterns are deliberately not tied: see Proofs/ConstTie.v).  A closed boolean computed by the kernel. ---- *)
+From Astisub Require Proofs.ConstTie Proofs.ConstTieSsa.
+Theorem C04_constants_from_source : ConstTie.all ConstTieSsa.SsaTie.ties = true.
+Proof. exact ConstTieSsa.SsaTie.consts_from_source. Qed.
 Print Assumptions C04_constants_from_source.
